@@ -188,6 +188,12 @@ func (e *Evidence) Exhaustive() { e.exhaust = true }
 // as KNOWN-FINDING (once per key); others get a replay file and a VIOLATION
 // line (a few per key at most).
 func (e *Evidence) Violate(key string, detail interface{}) {
+	// An observation that rests on a call cut short by the harness's own
+	// watchdog proves nothing about the system: it is inconclusive.
+	if strings.Contains(fmt.Sprintf("%v", detail), ErrWatchdog.Error()) {
+		e.Inconclusive("harness-watchdog")
+		return
+	}
 	e.mu.Lock()
 	defer e.mu.Unlock()
 	key = strings.Join(strings.Fields(key), "_")
